@@ -351,6 +351,8 @@ def run_ang(c):
         return ck.result()
     if cfg in ("points2", "lines2", "line_dir2"):
         a, b, cc = np.array(v[0:2], float), np.array(v[2:4], float), np.array(v[4:6], float)
+        if cfg == "line_dir2":
+            a = np.zeros(2)  # a line and a direction are measured at the origin
         if X.rank([[Fraction(int(x)) for x in list(p) + [1]] for p in (a, b, cc)]) < 3:
             raise Skip("collinear")
         exp = arg2(b - a) - arg2(cc - a)
@@ -383,6 +385,14 @@ def run_ang(c):
             ck.check(-math.pi / 2 - 1e-9 <= x <= math.pi / 2 + 1e-9, site + ":range", float(x))
         if cfg == "points2":
             r2, f = call(site, angle, args[0], args[2], args[1])
+            if f:
+                ck.add(f)
+            else:
+                for x in np.atleast_1d(np.real(r2)):
+                    ck.check(C.angle_eq_mod_pi(x, -exp), site + ":antisymmetric", (float(x), -exp))
+        if cfg in ("lines2", "line_dir2"):
+            # antisymmetric in its (last) two arguments, whichever kind comes first: angle(m, l) = -angle(l, m) mod pi
+            r2, f = call(site + ":swapped", angle, args[1], args[0])
             if f:
                 ck.add(f)
             else:
